@@ -138,3 +138,5 @@ INFO = dict(
     outside=["for NON-LINEAR recursion (total weights are unknowns constrained by their fixed-point equations): 'total weight of the normalised grammar is one' is not decided (needs leastness), per-head normalisation and proportionality are", "IEEE rounding", "agenda updates within (0, 1e-12]"],
     assumptions=["weights >= 0", "finite positive total weight (pivots > 0)"],
 )
+
+INFO["technique"] = 'symbolic execution of locally_normalize / add_EOS with z3 real weights (algebraic unknowns for non-linear total weights); z3 proves per-head normalisation, total weight one and proportionality; bounded'
